@@ -119,11 +119,11 @@ def reweight_errors(st, n_particles, ess_ratio, vv, beta_prev, w, first=False):
         if beta_prev is not None and beta > beta_prev and ess_ref < target * (1 - 1e-9):
             if vv is None:
                 out.append(("ess-target", f"advanced from beta={beta_prev!r} to beta={beta!r} where ESS={ess_ref!r} < target {target!r}"))
-            else:
-                # volume-variation mode: beta must not lie beyond the ESS-limited temperature (weakest reading:
-                # some temperature >= beta - BETA_TOLERANCE still has ESS >= target)
-                grid = np.linspace(max(beta_prev, beta - 1e-4), 1.0, 257)
-                ok = any(mis.ess_float(mis.logw_float(batches, betas, logzs, b)[0]) >= target * (1 - 1e-6) for b in grid)
+            elif ess_ref < target * (1 - 1e-7):
+                # volume-variation mode: beta must not lie beyond the ESS-limited temperature, i.e. some temperature >= beta must
+                # still have ESS >= target (ESS need not be monotone, so ESS(beta) itself may dip below the target legitimately)
+                grid = np.linspace(beta, 1.0, 2049)
+                ok = any(mis.ess_float(mis.logw_float(batches, betas, logzs, b)[0]) >= target * (1 - 1e-7) for b in grid[1:])
                 if not ok:
                     out.append(("vv-beyond-ess-limit", f"beta={beta!r} lies beyond every temperature with ESS>=target ({target!r}); ESS there is {ess_ref!r}"))
     return out
